@@ -220,13 +220,14 @@ def concrete_playback(crate, harness, cbmc_args=(), features=None, timeout=900, 
         for vm in re.finditer(r"vec!\[([^\]]*)\]", body):
             s = vm.group(1).strip()
             vals.append([int(x) for x in s.split(",") if x.strip()] if s else [])
-        if m.group(1) == "cover":
-            continue
-        tests.append({"check": m.group(1) + ": " + m.group(2).strip().strip('"'), "bytes": vals})
-    return tests
+        tests.append({"check": m.group(1) + ": " + m.group(2).strip().strip('"'), "bytes": vals, "is_cover": m.group(1) == "cover"})
+    # counterexamples of failed checks first; the witnesses of satisfied cover properties are kept as further candidate
+    # inputs (Kani does not always print a test for the failed assertion): a candidate only counts if the native run of
+    # the same harness body FAILS on it
+    return [t for t in tests if not t["is_cover"]] + [t for t in tests if t["is_cover"]]
 
 
-def native_replay(crate, harness, bytes_list, features=None):
+def native_replay(crate, harness, bytes_list, features=None, profiles=("dev", "release", "miri")):
     """Run the same harness body natively with the recorded values.
     Returns (reproduced: bool, how: str, detail)."""
     d = crate_dir(crate)
@@ -241,6 +242,8 @@ def native_replay(crate, harness, bytes_list, features=None):
     attempts = []
     feat = ["--features", features] if features else []
     for prof, extra in (("dev", []), ("release", ["--release"])):
+        if prof not in profiles:
+            continue
         cmd = ["cargo", "run", "--offline", "--quiet", "--bin", "replay", "--target-dir", tdir] + extra + feat + ["--", name, bpath]
         rc, out, _ = sh(cmd, cwd=d, timeout=900)
         attempts.append({"profile": prof, "rc": rc, "tail": out[-600:]})
@@ -248,6 +251,8 @@ def native_replay(crate, harness, bytes_list, features=None):
             continue
         if rc != 0 and rc != 4 and "could not compile" not in out:
             return True, prof, attempts
+    if "miri" not in profiles:
+        return False, "none", attempts
     # memory-safety failures do not crash a native run: ask Miri
     env = dict(ENV)
     env["MIRIFLAGS"] = "-Zmiri-disable-isolation"
@@ -444,18 +449,26 @@ def check_kani_property(prop, spec, tier):
             # Kani does not always emit a playback test for the failed assertion (observed: only the
             # cover witnesses were printed in one of two identical runs), so ask again if needed
             tests = concrete_playback(gcrate, h, cbmc_args=g.get("cbmc_args", ()), features=features)
-            if tests:
+            if [t for t in tests if not t["is_cover"]]:
                 break
         reproduced = False
         how = "none"
         chosen = None
         attempts_all = []
-        for t in tests[:4]:
-            ok, how, attempts = native_replay(gcrate, h, t["bytes"], features=features)
+        # pass 1: plain dev-profile run of every candidate; pass 2: release + Miri for the counterexamples proper
+        for t in tests[:8]:
+            ok, how, attempts = native_replay(gcrate, h, t["bytes"], features=features, profiles=("dev",))
             attempts_all.append({"check": t["check"], "attempts": attempts})
             if ok:
                 reproduced, chosen = True, t
                 break
+        if not reproduced:
+            for t in [t for t in tests if not t["is_cover"]][:2] or tests[:1]:
+                ok, how, attempts = native_replay(gcrate, h, t["bytes"], features=features, profiles=("release", "miri"))
+                attempts_all.append({"check": t["check"], "attempts": attempts})
+                if ok:
+                    reproduced, chosen = True, t
+                    break
         rdir = os.path.join(WORK, "replay")
         os.makedirs(rdir, exist_ok=True)
         hh = hashlib.sha1((h + json.dumps(r["failed"], sort_keys=True)).encode()).hexdigest()[:10]
